@@ -230,7 +230,7 @@ structure MarkRel (s s' : State) : Prop where
   rank : ∀ i, (s.get i).st.rank ≤ (s'.get i).st.rank
   notMemo : ∀ i, (s.get i).kind ≠ .memo → (s'.get i).st = (s.get i).st
   log : LogOK s → LogOK s'
-  logx : LogExt QuietEv s s'
+  logx : LogExt WokeEv s s'
 
 theorem MarkRel.refl (s : State) : MarkRel s s :=
   ⟨rfl, rfl, fun _ => rfl, fun _ => Nat.le_refl _, fun _ _ => rfl, fun h => h, LogExt.refl _ s⟩
@@ -473,5 +473,149 @@ theorem InvR.reobs {p : Prog} {s s' : State} (h : InvR p s) (hn : s'.nodes = s.n
   · intro w x hx; rw [g] at hx; rw [g]; exact h.verLe w x hx
   · intro w a ha; rw [g] at ha; rw [g]; exact h.srcData w a ha
 
+
+/-! ## glitch-freedom of the log
+
+The log does not record states, so "every value read is the from-scratch value for the signal state
+at that moment" is stated as consistency of a piece of log with an evolving signal environment:
+the environment changes only at a `set i` event and only at signal `i`; every `rdv self x v` event
+carries `scratch` of `x` for the environment current at that position. -/
+
+/-- memo bodies use tracked reads only -/
+def MemoTracked (p : Prog) : Prop :=
+  ∀ (m : Nat) (b : Expr), p[m]? = some (NodeDef.memo b) → b.noUntracked = true
+
+def WokeEv (ev : Ev) : Prop := ∃ i, ev = .woke i
+def ChgEv (ev : Ev) : Prop := (∃ i, ev = .woke i) ∨ ∃ i, ev = .changed i
+/-- events that are neither a tracked read nor a signal write -/
+def PlainEv (ev : Ev) : Prop := (∀ a b c, ev ≠ .rdv a b c) ∧ ∀ i, ev ≠ .set i
+
+theorem WokeEv.quiet {ev : Ev} (h : WokeEv ev) : QuietEv ev := by
+  obtain ⟨i, rfl⟩ := h
+  exact ⟨fun _ h => by cases h, fun _ h => by cases h⟩
+theorem WokeEv.plain {ev : Ev} (h : WokeEv ev) : PlainEv ev := by
+  obtain ⟨i, rfl⟩ := h
+  exact ⟨fun _ _ _ h => by cases h, fun _ h => by cases h⟩
+theorem WokeEv.chg {ev : Ev} (h : WokeEv ev) : ChgEv ev := .inl h
+theorem ChgEv.quiet {ev : Ev} (h : ChgEv ev) : QuietEv ev := by
+  rcases h with ⟨i, rfl⟩ | ⟨i, rfl⟩
+  · exact ⟨fun _ h => by cases h, fun _ h => by cases h⟩
+  · exact ⟨fun _ h => by cases h, fun _ h => by cases h⟩
+theorem ChgEv.plain {ev : Ev} (h : ChgEv ev) : PlainEv ev := by
+  rcases h with ⟨i, rfl⟩ | ⟨i, rfl⟩
+  · exact ⟨fun _ _ _ h => by cases h, fun _ h => by cases h⟩
+  · exact ⟨fun _ _ _ h => by cases h, fun _ h => by cases h⟩
+
+/-- the two environments agree on every signal of `p` -/
+def SigEq (p : Prog) (env env' : Nat → Int) : Prop := ∀ i v, p[i]? = some (.sig v) → env i = env' i
+
+theorem SigEq.refl (p : Prog) (env : Nat → Int) : SigEq p env env := fun _ _ _ => rfl
+theorem SigEq.symm {p : Prog} {a b : Nat → Int} (h : SigEq p a b) : SigEq p b a :=
+  fun i v hd => (h i v hd).symm
+theorem SigEq.trans {p : Prog} {a b c : Nat → Int} (h1 : SigEq p a b) (h2 : SigEq p b c) : SigEq p a c :=
+  fun i v hd => (h1 i v hd).trans (h2 i v hd)
+
+theorem SigEq.of_val {p : Prog} {s s' : State}
+    (h : ∀ i v, p[i]? = some (.sig v) → (s'.get i).val = (s.get i).val) : SigEq p (envOf s) (envOf s') :=
+  fun i v hd => by simp only [envOf, h i v hd]
+
+inductive GlitchFree (p : Prog) : (Nat → Int) → List Ev → (Nat → Int) → Prop
+  | nil {env env' : Nat → Int} : SigEq p env env' → GlitchFree p env [] env'
+  | rdv {env env' : Nat → Int} {self x : Nat} {v : Int} {rest : List Ev} :
+      scratch p env (fuelFor p) x = v → GlitchFree p env rest env' →
+      GlitchFree p env (.rdv self x v :: rest) env'
+  | set {env env1 env' : Nat → Int} {id : Nat} {rest : List Ev} :
+      (∀ i v, p[i]? = some (.sig v) → i ≠ id → env i = env1 i) → GlitchFree p env1 rest env' →
+      GlitchFree p env (.set id :: rest) env'
+  | skip {env env' : Nat → Int} {ev : Ev} {rest : List Ev} :
+      PlainEv ev → GlitchFree p env rest env' → GlitchFree p env (ev :: rest) env'
+
+theorem GlitchFree.congr_left {p : Prog} {env0 env env' : Nat → Int} {l : List Ev}
+    (h : GlitchFree p env l env') (h0 : SigEq p env0 env) : GlitchFree p env0 l env' := by
+  induction h generalizing env0 with
+  | nil h => exact .nil (h0.trans h)
+  | rdv hv _ ih => exact .rdv (by rw [scratch_env_congr h0]; exact hv) (ih h0)
+  | set hs hr _ => exact .set (fun i v hd hne => (h0 i v hd).trans (hs i v hd hne)) hr
+  | skip hp _ ih => exact .skip hp (ih h0)
+
+theorem GlitchFree.append {p : Prog} {env env1 env' : Nat → Int} {a b : List Ev}
+    (h1 : GlitchFree p env a env1) (h2 : GlitchFree p env1 b env') : GlitchFree p env (a ++ b) env' := by
+  induction h1 with
+  | nil h => exact h2.congr_left h
+  | rdv hv _ ih => exact .rdv hv (ih h2)
+  | set hs _ ih => exact .set hs (ih h2)
+  | skip hp _ ih => exact .skip hp (ih h2)
+
+theorem GlitchFree.plain {p : Prog} {env env' : Nat → Int} (h : SigEq p env env') :
+    ∀ (l : List Ev), (∀ ev ∈ l, PlainEv ev) → GlitchFree p env l env'
+  | [], _ => .nil h
+  | ev :: l, hl => .skip (hl ev (List.mem_cons_self ..))
+      (GlitchFree.plain h l (fun e he => hl e (List.mem_cons_of_mem _ he)))
+
+/-- a piece of log without `set` events: the environment is constant, every read carries the
+from-scratch value for it -/
+theorem GlitchFree.noset {p : Prog} {env env' : Nat → Int} {l : List Ev} (h : GlitchFree p env l env')
+    (hn : ∀ i, Ev.set i ∉ l) :
+    SigEq p env env' ∧ ∀ self x v, Ev.rdv self x v ∈ l → v = scratch p env (fuelFor p) x := by
+  induction h with
+  | nil h => exact ⟨h, fun _ _ _ hm => by cases hm⟩
+  | rdv hv _ ih =>
+    have ih' := ih (fun i hi => hn i (List.mem_cons_of_mem _ hi))
+    refine ⟨ih'.1, fun self x v hm => ?_⟩
+    rcases List.mem_cons.1 hm with hm | hm
+    · cases hm; exact hv.symm
+    · exact ih'.2 self x v hm
+  | set _ _ _ => exact absurd (List.mem_cons_self ..) (hn _)
+  | skip hp _ ih =>
+    have ih' := ih (fun i hi => hn i (List.mem_cons_of_mem _ hi))
+    refine ⟨ih'.1, fun self x v hm => ?_⟩
+    rcases List.mem_cons.1 hm with hm | hm
+    · exact absurd hm.symm (hp.1 self x v)
+    · exact ih'.2 self x v hm
+
+/-- the log written between `s` and `s'` is glitch-free, from the signal values of `s` to those of `s'` -/
+def StateGF (p : Prog) (s s' : State) : Prop :=
+  ∃ suf, s'.log = s.log ++ suf ∧ GlitchFree p (envOf s) suf (envOf s')
+
+theorem StateGF.refl (p : Prog) (s : State) : StateGF p s s :=
+  ⟨[], by simp, .nil (SigEq.refl ..)⟩
+
+theorem StateGF.trans {p : Prog} {s s' s'' : State} (h1 : StateGF p s s') (h2 : StateGF p s' s'') :
+    StateGF p s s'' := by
+  obtain ⟨a, ha, ga⟩ := h1
+  obtain ⟨b, hb, gb⟩ := h2
+  exact ⟨a ++ b, by rw [hb, ha, List.append_assoc], ga.append gb⟩
+
+theorem StateGF.of_plain {p : Prog} {s s' : State} (hl : LogExt PlainEv s s')
+    (he : SigEq p (envOf s) (envOf s')) : StateGF p s s' := by
+  obtain ⟨a, ha, ga⟩ := hl
+  exact ⟨a, ha, GlitchFree.plain he a ga⟩
+
+theorem StateGF.of_eq {p : Prog} {s s' : State} (hl : s'.log = s.log)
+    (he : SigEq p (envOf s) (envOf s')) : StateGF p s s' :=
+  StateGF.of_plain (LogExt.of_eq hl) he
+
+/-- a tracked read of a clean data node logs its from-scratch value -/
+theorem StateGF.rdv {p : Prog} {s : State} (h : InvR p s) (hwf : WF p = true) (htr : MemoTracked p)
+    {x : Nat} (hx : x < p.length) (hk : (s.get x).kind ≠ .eff) (hst : (s.get x).st = .clean)
+    {v : Int} (hv : (s.get x).val = some v) (self : Nat) : StateGF p s (s.emit (.rdv self x v)) := by
+  refine ⟨[.rdv self x v], rfl, .rdv ?_ (.nil (SigEq.refl ..))⟩
+  have := h.clean_correct hwf htr x hx hk hst
+  rw [hv] at this
+  exact (Option.some.inj this).symm
+
+theorem Frame.sigEq {p : Prog} {s s' : State} {k : Nat} (h : InvR p s) (fr : Frame s s' k) :
+    SigEq p (envOf s) (envOf s') := by
+  apply SigEq.of_val
+  intro i v hd
+  have hi : i < p.length := by
+    rcases Nat.lt_or_ge i p.length with h' | h'
+    · exact h'
+    · rw [List.getElem?_eq_none h'] at hd; cases hd
+  have hk := h.kind i _ hd
+  exact (fr.clean i (h.sigOk i hi hk).1).2
+
+theorem MarkRel.sigEq {p : Prog} {s s' : State} (h : MarkRel s s') : SigEq p (envOf s) (envOf s') :=
+  SigEq.of_val (fun i _ _ => h.val i)
 
 end Leptos.Reactive
